@@ -333,7 +333,10 @@ func intMul(a, b Int) Object {
 		absB = -b
 	}
 	// A crude but effective test!
-	if absA <= sqrtIntMax && absB <= sqrtIntMax {
+	//
+	// abs(IntMin) overflows back to IntMin, so negative "absolute"
+	// values must take the big path
+	if absA >= 0 && absB >= 0 && absA <= sqrtIntMax && absB <= sqrtIntMax {
 		return Int(a * b)
 	}
 	aBig := big.NewInt(int64(a))
